@@ -3,20 +3,25 @@ import multiprocessing as mp
 from harness import asmio
 
 
-def _one(case):
+def _one(case, hooks=False):
     tid, prog, lines = case
-    rec = asmio.assemble(list(lines))
+    rec = asmio.assemble(list(lines), hooks=hooks)
     t = asmio.trace_of(tid, prog, lines, rec)
-    extra = {"exc": rec["exc"], "site": rec["site"], "msg": rec["msg"], "adapter": rec["adapter"], "input_intact": rec["input_intact"]}
+    extra = {"exc": rec["exc"], "site": rec["site"], "msg": rec["msg"], "adapter": rec["adapter"], "input_intact": rec["input_intact"],
+             "hooks": rec["hooks"], "name": rec["name"]}
     return t, extra
 
 
-def run(cases, nproc=16, chunksize=200):
+def _one_hooks(case):
+    return _one(case, hooks=True)
+
+
+def run(cases, nproc=16, chunksize=200, hooks=False):
     """cases: list of (id, prog, lines).  Returns (traces, extras_by_id)."""
     if not cases:
         return [], {}
     with mp.Pool(nproc) as pool:
-        res = pool.map(_one, cases, chunksize=chunksize)
+        res = pool.map(_one_hooks if hooks else _one, cases, chunksize=chunksize)
     traces = [t for t, _ in res]
     extras = {t["id"]: x for t, x in res}
     return traces, extras
